@@ -139,6 +139,10 @@ def eval_call(I: Interp, node: ast.Call, fr: Frame):
             v = I.dict_get(SV(d.t, dty if dty.k == "dict" else T.DICT()), k)
             st.assume_wt(v)
             return v
+        if n == "cast":  # cast(x, "Annotation"): view a value through a static type (spec only; no assumption is made)
+            v = I.to_sv(I.ev(node.args[0], fr))
+            ann = I.ev(node.args[1], fr).c
+            return SV(v.t, T.parse_ann(parse_expr(ann), fr.module, fr.cls), v.c)
         if n == "psum":  # psum(k, lo, hi, body) = sum of body for k in [lo, hi): a function F with F(lo)=0, F(k+1)=F(k)+body(k)
             name = node.args[0].id
             lo, _ = I.num(I.ev(node.args[1], fr))
